@@ -102,7 +102,8 @@ def check(ID, n, checks):
 def keep(ID, n):
     O = '%s/%s_out' % (MUT, ID)
     pid = re.search(r'C\d\d', ID).group(0)
-    D = os.path.join(VERIF, 'seeded', '%s-%s' % (pid, n))
+    num = int(n) + (3 if ID.startswith('r4') else 0)          # round 4 re-visited the properties of round 2: numbered 4..6
+    D = os.path.join(VERIF, 'seeded', '%s-%s' % (pid, num))
     os.makedirs(D, exist_ok=True)
     shutil.copy('%s/patch%s.diff' % (O, n), D + '/patch.diff')
     shutil.copy('%s/demo%s.py' % (O, n), D + '/demo.py')
